@@ -23,6 +23,7 @@ Line protocol of the C04 driver (one line in, one line out).  Floats are printed
   gmrf <1|2> <order> <bc> <n> <prec> <x> <mu>     -> `ok <declaredRank> <trueRank> <pdet|-> <quad> <f:logpdf|->` | `raise`
   mrf <lmrf|cmrf> <1|2> <bc> <n> <scale> <x> <loc> -> `ok <m> <f:logpdf>` | `raise`
   sparseflag <dim>                                -> `0|1`
+  zerodim <family>                                -> `0|1`  (is a 0-d ndarray parameter refused)
   mindimsparse                                    -> `75`
 -/
 
@@ -228,6 +229,7 @@ def step : List String → String
     match dim.toNat? with
     | some d => fmtBool (sparseFlag d)
     | none => "bad-op"
+  | ["zerodim", fam] => fmtBool (zeroDimArrayRaises fam)
   | ["mindimsparse"] => toString MIN_DIM_SPARSE
   | _ => "bad-op"
 
